@@ -128,6 +128,10 @@ def oracle(c):
         took = any(cl == ['claim', name] for cl in calls) and name in requested
         if took and 'release' not in faults and ra is not None and ra[4] == i['now']:
             bad.append(f'package {name}: the claim taken by the routine was not released')
+        # the routine releases ITS claim: a package it did not request (claim refused: somebody else is fetching it)
+        # keeps the other fetcher's claim
+        if name not in requested and rb is not None and rb[4] is not None and ra is not None and ra[4] != rb[4]:
+            bad.append(f'package {name}: not requested by this run (claimed by another fetcher since {rb[4]}), yet that claim was released / changed (fetching_since {rb[4]} -> {ra[4]})')
         # marked nonexistent only for a definitive not-found
         newly_marked = ra is not None and ra[5] == 1 and (rb is None or rb[5] == 0)
         nf_requested = [e for e in entries if e['outcome']['kind'] == 'not_found']
